@@ -313,7 +313,7 @@ Proof.
   - exfalso; apply H; reflexivity.
   - apply reread_true.
   - rewrite reread_true. destruct valid; [apply reread_true|reflexivity].
-  - apply resolve_true.
+  - rewrite resolve_true. apply reread_true.
   - apply reread_true.
   - destruct b; [reflexivity|exfalso; apply H; reflexivity].
 Qed.
@@ -853,9 +853,9 @@ Proof.
 Qed.
 
 (** resolving can only set the flag, never clear it *)
-Theorem resolve_keeps_or_sets : forall g docs, step g (OResolve docs) = false -> g = false.
+Theorem resolve_keeps_or_sets : forall g docs maths, step g (OResolve docs maths) = false -> g = false.
 Proof.
-  intros g docs H. destruct g; [|reflexivity]. cbn [step] in H. rewrite resolve_true in H. discriminate.
+  intros g docs maths H. destruct g; [|reflexivity]. cbn [step] in H. rewrite resolve_true, reread_true in H. discriminate.
 Qed.
 Theorem flatten_keeps_or_sets : forall g maths, step g (OFlatten maths) = false -> g = false.
 Proof.
